@@ -66,10 +66,10 @@ def sym_job(j):
                 ok = name == "PUSH" and isinstance(value, P.SymText) and value.kind == "hex" and value.skip == 2 and \
                     isinstance(value.value, P.SymInt) and value.value.t.eq(sv.t)
                 why = "PUSH operand must be hex(value)[2:] of the specified number"
-            elif d in ("PUSH data", "PUSHIMMUTABLE"):
+            elif d in ("PUSH data", "PUSHIMMUTABLE", "PUSH #[$]", "PUSH [$]"):
                 ok = name == d and isinstance(value, P.SymText) and value.kind == "hex" and value.skip == 2 and value.value.t.eq(sv.t)
                 why = "%s operand must be the hexadecimal rendering of the specified value" % d
-            elif d in ("PUSH [tag]", "PUSH #[$]", "PUSH [$]", "PUSHLIB"):
+            elif d in ("PUSH [tag]", "PUSHLIB"):
                 ok = name == d and isinstance(value, P.SymText) and value.kind == "dec" and value.skip == 0 and value.value.t.eq(sv.t)
                 why = "%s operand must be the decimal rendering of the specified value" % d
             else:
@@ -185,8 +185,36 @@ def norm_push0(x):
     return x
 
 
+def synthetic_document(path):
+    """a document with every pseudo-push kind (library references, immutables, sub-assembly references with hexadecimal
+    operands >= a), a contract without asm, nested data and source lists"""
+    def it(name, value=None, **kw):
+        d = {"begin": 10, "end": 20, "name": name, "source": 0}
+        if value is not None:
+            d["value"] = value
+        d.update(kw)
+        return d
+    h = lambda n: "%064X" % n
+    code = [it("tag", "1"), it("JUMPDEST"), it("PUSH", "0"), it("PUSHLIB", "contracts/Lib.sol:MyLib"), it("ADD"), it("PUSH", "0"), it("ADD"),
+            it("PUSHLIB", "contracts/Other.sol:Other"), it("AND"), it("PUSH #[$]", h(11)), it("ADD"), it("PUSH [$]", h(12)), it("PUSH", "0"), it("ADD"),
+            it("MUL"), it("PUSH [tag]", "2"), it("JUMP", jumpType="[in]"),
+            it("tag", "2"), it("JUMPDEST", modifierDepth=0), it("PUSHIMMUTABLE", h(0xABCDEF)), it("PUSH", "0"), it("ADD"), it("PUSH data", h(0x0A11)),
+            it("PUSH", "1"), it("MUL"), it("PUSHSIZE"), it("PUSHDEPLOYADDRESS"), it("DUP2"), it("PUSH", "0"), it("ADD"), it("ASSIGNIMMUTABLE", h(0xABCDEF)),
+            it("PUSH", "0"), it("DUP2"), it("ADD"), it("POP"), it("STOP")]
+    sub = {".auxdata": "a264697066", ".code": list(code), ".data": {h(0x0A11): "6080", "0": {".code": [it("PUSH", "0"), it("DUP1"), it("ADD"), it("INVALID")], ".data": {}}}}
+    doc = {"version": "0.8.19+commit.7dd6d404",
+           "contracts": {"a.sol:A": {"asm": {".code": list(code), ".data": {"0": sub, "1": "deadbeef"}, "sourceList": ["a.sol"]}},
+                         "b.sol:I": {"asm": None}}}
+    with open(path, "w") as f:
+        json.dump(doc, f)
+    return path
+
+
 def doc_job(j):
     doc = j[0]
+    if doc == "<synthetic>":
+        synth_dir = tempfile.mkdtemp(prefix="verif_c09s_")
+        doc = synthetic_document(os.path.join(synth_dir, "synthetic.json_solc"))
     import gasol_asm
     from sfs_generator.parser_asm import parse_asm
     p = gasol.params()
@@ -248,7 +276,7 @@ def main():
     nd = 2 if tier == "quick" else 8
     tasks = [(gasol.optset(), [("sym",)], 1)]
     for k, o in enumerate(osets):
-        tasks.append((o, [("doc", docs[(k * nd + i) % len(docs)]) for i in range(nd)], 1))
+        tasks.append((o, [("doc", docs[(k * nd + i) % len(docs)]) for i in range(nd)] + [("doc", "<synthetic>")], 1))
     results, stats = pool.run(tasks, "checks.c09:job", job_timeout=1800)
     obligations = discharged = ndocs = segs = changed = items = 0
     for o, j, r in results:
